@@ -42,11 +42,10 @@ def plain (c : UInt8) : Bool :=
   !(c == 0 || c == cStar || c == cQm || c == cLBr || c == cRBr || c == cLPar || c == cRPar || c == cComma
     || c == cBar || c == cBs || c == cCaret || c == cDollar || c == cLBrace || c == cRBrace)
 
-/-- a character that stands for itself inside `[..]` (no class syntax, and none of the characters the
-    class-unaware translation loop of `SetPattern` rewrites: see finding "class" in the report) -/
+/-- a character that stands for itself inside `[..]`: anything but the class syntax itself (`]`, `[`, `^`, `-`) and
+    the backslash.  (`, . + * ?` are ordinary members: `SetPattern` copies the inside of a class untranslated.) -/
 def clsChar (c : UInt8) : Bool :=
-  !(c == 0 || c == cRBr || c == cLBr || c == cCaret || c == cDash || c == cBs || c == cComma || c == cDot
-    || c == cPlus || c == cStar || c == cQm)
+  !(c == 0 || c == cRBr || c == cLBr || c == cCaret || c == cDash || c == cBs)
 
 /-! ## character classes -/
 inductive ClsItem where
@@ -168,13 +167,13 @@ def isDigit (c : UInt8) : Bool := decide (48 ≤ c) && decide (c ≤ 57)
 /-- value of a string of decimal digits -/
 def decVal (s : Bytes) : Nat := s.foldl (fun acc c => acc * 10 + (c.toNat - 48)) 0
 
-/-- "an ASCII representation of an integer": non-empty, digits only, no leading zero except `0` itself -/
-def isCanonDecimal (s : Bytes) : Bool :=
-  !s.isEmpty && s.all isDigit && (s.length == 1 || s.head? != some 48)
+/-- "an ASCII representation of an integer": a non-empty string of decimal digits (of any length; leading zeros
+    are allowed: `007` represents 7) -/
+def isDecimal (s : Bytes) : Bool := !s.isEmpty && s.all isDigit
 
 /-- documented meaning of a range list: the string represents an integer lying in one of the ranges -/
 def rangeDenote (rs : List RangeSpec) (s : Bytes) : Bool :=
-  isCanonDecimal s && rs.any (·.has (decVal s))
+  isDecimal s && rs.any (·.has (decVal s))
 
 /-- decimal representation (`%u`) -/
 def decimal (n : Nat) : Bytes :=
@@ -213,10 +212,11 @@ def firstOK (body : Bytes) : Bool :=
   | c :: _ => !(c == cTilde || c == cTick || c == cLt)
   | [] => true
 
-/-- numbers fit 32 bits and bounds are in order -/
+/-- bounds are in order and every number written in the pattern is below `MUSCLE_NO_LIMIT` = 2^32-1 (which the
+    code uses for "no upper bound") -/
 def RangeSpec.WF : RangeSpec → Bool
-  | .one n => decide (n < 4294967296)
-  | .span lo hi => decide (lo.getD 0 ≤ hi.getD 4294967295) && decide (hi.getD 0 < 4294967296)
+  | .one n => decide (n < 4294967295)
+  | .span lo hi => decide (lo.getD 0 ≤ hi.getD 4294967295) && decide (hi.getD 0 < 4294967295)
 
 def Top.WF : Top → Bool
   | .pat _ p => p.WF && firstOK p.render
